@@ -4,6 +4,7 @@ import (
 	"fmt"
 	"strconv"
 	"strings"
+	"time"
 
 	"verif/internal/vals"
 )
@@ -189,6 +190,24 @@ func elems(v vals.V) []vals.V {
 		return typed("float64")
 	case "[]bool":
 		return typed("bool")
+	case "[]qty":
+		return typed("qty")
+	case "[2]ratio":
+		out := []vals.V{{K: "ratio", S: "0"}, {K: "ratio", S: "0"}}
+		for i, e := range v.L {
+			if i < 2 {
+				out[i] = vals.V{K: "ratio", S: e.S}
+			}
+		}
+		return out
+	case "[]dur":
+		// S is what the value prints as (time.Duration is a fmt.Stringer)
+		out := make([]vals.V, len(v.L))
+		for i, e := range v.L {
+			n, _ := strconv.Atoi(e.S)
+			out[i] = vals.V{K: "dur", S: time.Duration(n).String()}
+		}
+		return out
 	case "[3]int":
 		out := []vals.V{vals.Int(0), vals.Int(0), vals.Int(0)}
 		for i, e := range v.L {
@@ -221,7 +240,7 @@ func elems(v vals.V) []vals.V {
 
 func isSeq(k string) bool {
 	switch k {
-	case "[]any", "[]string", "[]int", "[]float64", "[]bool", "[3]int", "[]map", "[]rec", "[]*rec", "nil[]any", "[]emb", "[]pemb", "[]*emb":
+	case "[]any", "[]string", "[]int", "[]float64", "[]bool", "[3]int", "[]map", "[]rec", "[]*rec", "nil[]any", "[]emb", "[]pemb", "[]*emb", "[]qty", "[2]ratio", "[]dur":
 		return true
 	}
 	return false
@@ -229,10 +248,26 @@ func isSeq(k string) bool {
 
 func isScalar(k string) bool {
 	switch k {
-	case "string", "int", "float64", "bool":
+	case "string", "int", "float64", "bool", "qty", "ratio", "dur":
 		return true
 	}
 	return false
+}
+
+// truthOnly: items of a NAMED numeric type (Qty int, Ratio float32, time.Duration). Documented
+// truthiness applies (zero of any numeric type is falsy); comparing them with literals is a
+// cross-type comparison and not generated.
+func truthOnly(k string) bool { return k == "qty" || k == "ratio" || k == "dur" }
+
+func truthy(v vals.V) bool {
+	switch v.K {
+	case "qty", "ratio":
+		return num(v) != 0
+	case "dur":
+		return v.S != "0s"
+	}
+	t, _ := v.Truthy()
+	return t
 }
 
 func (in *interp) lookup(name string) (vals.V, bool) {
@@ -269,8 +304,7 @@ func (in *interp) holds(c Cond) bool {
 		if !ok {
 			return in.u.truthy
 		}
-		t, _ := v.Truthy()
-		return t
+		return truthy(v)
 	}
 	if !ok {
 		return in.u.eq // generated only with Op "=="
@@ -421,7 +455,7 @@ func (in *interp) loop(l *Loop) ([]*xm, string) {
 				if l.Bind != "" {
 					if v, ok := in.resolve(l.Bind); ok && isScalar(v.K) {
 						// falsy values: whether the attribute is kept is another property's business
-						if t, _ := v.Truthy(); t {
+						if truthy(v) {
 							as := l.BindAs
 							if as == "" {
 								as = "data-x"
@@ -520,7 +554,7 @@ func (in *interp) probe(p *Probe) *xm {
 			// docs/syntax.md: style object values are applied as-is; falsy values stay unasserted
 			c := &xm{id: p.ID + "." + itoa(k), text: "y", why: ":style={color: " + r.Path + "}, " + in.scopeNote()}
 			if ok && isScalar(v.K) {
-				if t, _ := v.Truthy(); t {
+				if truthy(v) {
 					c.reqs = []attrReq{{attr: "style", needle: "color:" + v.S, want: true}}
 				}
 			}
@@ -532,7 +566,7 @@ func (in *interp) probe(p *Probe) *xm {
 			}
 			c := &xm{id: p.ID + "." + itoa(k), text: "a", why: ":" + an + "=" + r.Path + ", " + in.scopeNote()}
 			if ok && isScalar(v.K) {
-				if t, _ := v.Truthy(); t {
+				if truthy(v) {
 					c.attrs = map[string]string{an: v.S}
 				}
 			}
